@@ -242,7 +242,9 @@ func (k Keeper) UnlockCoinsForFees(ctx sdk.Context, feePayer sdk.AccAddress, fee
 	lockedUndCoins := sdk.NewCoins(lockedUnd)
 	feeNund := feesToPay.AmountOf(k.GetParamDenom(ctx))
 	feeNundCoin := sdk.NewCoin(k.GetParamDenom(ctx), feeNund)
-	_, feeToPay := feesToPay.Find(k.GetParamDenom(ctx))
+	// not feesToPay.Find: it returns an empty Coin with a nil amount (panic in SafeSub below) when the
+	// fee does not contain the enterprise denomination
+	feeToPay := feeNundCoin
 	//blockTime := uint64(ctx.BlockHeader().Time.Unix())
 
 	// calculate how much Locked FUND would be left over after deducting Tx fees
